@@ -71,7 +71,7 @@ def report(rep, results, label):
     for k, (sc, tr, gens) in enumerate(results):
         desc = {"scenario": sc["name"], "kind": sc["kind"], "freq": sc["freq"], "keep": sc["keep"],
                 "async": sc["isasync"], "generations": len(gens), "devices": [g.get("n_devices", 1) for g in sc["gens"]],
-                "kills": [g.get("kill_at") or g.get("shim_kill") for g in sc["gens"]]}
+                "kills": [g.get("kill_at") or g.get("shim_kill") or g.get("kill_after") for g in sc["gens"]]}
         rep.case(desc, nontrivial=len(tr["ev"]) > 3)
         if k in rej:
             at, prop, clause = rej[k][0][0], rej[k][0][1], rej[k][0][2]
